@@ -1,6 +1,9 @@
 """Shared machinery for /verif/check: building, locking, running streams,
 S-expression handling, evidence and verdict reporting."""
 import fcntl, hashlib, json, os, re, shutil, subprocess, sys, time, glob
+import sys as _sys, threading as _threading
+_sys.setrecursionlimit(200000)      # trees of sources that nest hundreds of levels deep are walked recursively
+_threading.stack_size(512 * 1024 * 1024)
 
 VERIF = os.path.dirname(os.path.dirname(os.path.abspath(__file__)))
 REPO = os.environ.get("VERIF_REPO", "/repo")
@@ -31,7 +34,13 @@ def run(cmd, **kw):
     kw.setdefault("stdout", subprocess.PIPE)
     kw.setdefault("stderr", subprocess.PIPE)
     kw.setdefault("text", True)
-    return subprocess.run(cmd, **kw)
+    kw.setdefault("timeout", 2400)       # nothing the checks start is meant to run longer; a step that hangs must not hang the check
+    try:
+        return subprocess.run(cmd, **kw)
+    except subprocess.TimeoutExpired as e:
+        # a step that does not end is a failed step for every caller (they all look at the return code)
+        out = e.stdout if isinstance(e.stdout, str) else (e.stdout or b"").decode("utf-8", "replace") if kw.get("text") else (e.stdout or b"")
+        return subprocess.CompletedProcess(cmd, 124, out, f"did not terminate within {kw.get('timeout')} s: {' '.join(map(str, cmd))[:300]}")
 
 def tree_hash(paths):
     h = hashlib.sha256()
